@@ -357,10 +357,10 @@ HIST_RULE = ("K-hist cases: random DAGs with setup / debug nodes and defaulted p
 HIST_ASSUME = ["setup node functions are pure (their stored value equals what a re-computation would give)", "pickle round-trips the results faithfully", "graphs / node table read from the DAG the implementation built (layering)"]
 for _p in ("C11", "C15", "C18"):
     REGISTRY[_p] = dict(engines=[engine_khist.run], rule=HIST_RULE, assumptions=HIST_ASSUME)
-REGISTRY["C03"]["engines"] = [engine_ksched, engine_khist.run, engine_kgraph.run]
+REGISTRY["C03"]["engines"] = [engine_ksched, engine_khist.run, engine_kgraph.run, engine_kvalue.run_ids]
 REGISTRY["C11"]["engines"] = [engine_khist.run, engine_kgraph.run]
 REGISTRY["C11"]["rule"] = HIST_RULE + " || " + GRAPH_RULE
-REGISTRY["C03"]["rule"] = SCHED_RULE + " || " + HIST_RULE + " || " + GRAPH_RULE
+REGISTRY["C03"]["rule"] = SCHED_RULE + " || " + HIST_RULE + " || " + GRAPH_RULE + " || K-ids: ids given to the call sites of generated describing functions (functions reused across call sites, nested DAGs) vs Ids.kids"
 
 from . import engine_kcompose  # noqa: E402
 
